@@ -720,37 +720,45 @@ def k4(ck: Check) -> None:
                      "itself' and is dropped (attractor lost)")
     ck.ob("K4", fm, loop, not probs, "; ".join(probs) if probs else "current state subtracted before its walk",
           key="avoid: subtract current state")
-    # drops: is_valid flag false only under candidates_bdd(sim) or avoid_bdd(sim)
-    flag = None
-    for s in loop.body:
-        if isinstance(s, ast.Assign) and is_true(s.value) and isinstance(s.targets[0], ast.Name):
-            flag = s.targets[0].id
+    # drops: an iteration that does not keep the state has seen candidates_bdd(sim) or avoid_bdd(sim) (flag, for/else, ...)
     probs = []
-    if flag is None:
-        probs.append("no validity flag in the candidate loop")
+    from .c13 import _tbranch, _within
+    from .common import paths_imply
+    avoid_p = [p for p in f.params() if "avoid" in p][0]
+    keeps = [n for n in ast.walk(loop) if isinstance(n, ast.Call) and isinstance(n.func, ast.Attribute)
+             and n.func.attr == "append"]
+    reun = [s for s in ast.walk(loop) if isinstance(s, ast.Assign) and isinstance(s.targets[0], ast.Name)
+            and s.targets[0].id == cb and isinstance(s.value, ast.Call) and callee_name(s.value) == "l_or"]
+    hdr = fm.cfg.loop_header[loop]
+    tr = logic.Translator(lambda e: text(e))
+    hit = logic.Or(logic.B(f"T:{cb}(simulation)"), logic.B(f"T:{avoid_p}(simulation)"))
+    if not keeps:
+        probs.append("no state is ever kept")
     else:
-        avoid_p = [p for p in f.params() if "avoid" in p][0]
-        for n in ast.walk(loop):
-            if isinstance(n, ast.Assign) and isinstance(n.targets[0], ast.Name) and n.targets[0].id == flag and is_false(n.value):
-                cn = fm.cfgn(n)
-                pc = pc_text(fm, cn)
-                ats = {a[1] for a in logic.atoms(pc) if a[0] == "b"}
-                ok = any(logic.implies(pc, logic.B(t)) for t in ats if t in (f"T:{cb}(simulation)", f"T:{avoid_p}(simulation)"))
-                if not ok:
-                    probs.append(f"line {n.lineno}: a candidate is dropped although its walk reached neither another "
-                                 f"candidate nor the avoid set (e.g. when the step budget runs out)")
-        keeps = [n for n in ast.walk(loop) if isinstance(n, ast.Call) and isinstance(n.func, ast.Attribute)
-                 and n.func.attr == "append"]
-        for kp in keeps:
-            pc = pc_text(fm, fm.cfgn(kp))
-            if not logic.implies(pc, logic.B("T:" + flag)):
-                probs.append("a state is kept although it was ruled out")
-        reun = [s for s in ast.walk(loop) if isinstance(s, ast.Assign) and isinstance(s.targets[0], ast.Name)
-                and s.targets[0].id == cb and isinstance(s.value, ast.Call) and callee_name(s.value) == "l_or"]
-        if not reun or not all(logic.implies(pc_text(fm, fm.cfgn(s)), logic.B("T:" + flag)) for s in reun):
+        kn = {fm.cfgn(k).id for k in keeps}
+        why = paths_imply(fm, _tbranch(fm, loop), hdr, hit, tr, stop=kn)
+        if why is not None:
+            probs.append(f"a candidate is dropped although its walk reached neither another candidate nor the avoid set "
+                         f"(e.g. when the step budget runs out): {why}")
+        # a state that was ruled out is not kept
+        for bnode in [fm.cfg.nodes[i] for i in fm.cfg.loop_nodes[loop]]:
+            if bnode.kind == "branch" and bnode.pol and bnode.test is not None and logic.implies(tr.f(bnode.test), hit) \
+                    and logic.atoms(tr.f(bnode.test)):
+                for k in kn:
+                    if k in _within(fm, loop, bnode, set()):
+                        w2 = paths_imply(fm, bnode, fm.cfg.nodes[k], logic.FALSE, tr, stop={hdr.id})
+                        if w2 is not None:
+                            probs.append(f"a state is kept although it was ruled out ({w2})")
+        if not reun:
             probs.append("a kept state is not put back into the candidate set")
-        elif keeps and not all(fm.cfg.dominates(fm.cfgn(s), fm.cfgn(keeps[0])) or fm.cfg.dominates(fm.cfgn(keeps[0]), fm.cfgn(s)) for s in reun):
-            probs.append("kept state and candidate set are updated on different paths")
+        else:
+            rn_ = {fm.cfgn(s).id for s in reun}
+            for k in kn:
+                kn_node = fm.cfg.nodes[k]
+                before = all(fm.cfg.dominates(fm.cfg.nodes[r], kn_node) for r in rn_)
+                after = hdr.id not in _within(fm, loop, kn_node, rn_)
+                if not (before or after):
+                    probs.append("kept state and candidate set are updated on different paths")
     ck.ob("K4", fm, loop, not probs, "; ".join(probs) if probs else
           "a state is dropped only when its walk hit another candidate or the avoid set; kept states are re-united",
           key="avoid: drop discipline")
@@ -806,8 +814,14 @@ def k4(ck: Check) -> None:
     # result read back from the final BDD
     probs = []
     tail = [s for s in noavoid_body if isinstance(s, ast.For) and s is not outer]
-    if not tail or not (isinstance(tail[-1].iter, ast.Call) and callee_name(tail[-1].iter) == "valuation_iterator"
-                        and text(tail[-1].iter.func.value) == cb2):
+    its = [tail[-1].iter] if tail else []
+    # ... or by a comprehension in / before the return
+    for s_ in noavoid_body:
+        if isinstance(s_, (ast.Return, ast.Assign)) and s_.value is not None and s_.lineno > outer.lineno:
+            for c_ in ast.walk(s_.value):
+                if isinstance(c_, ast.ListComp) and len(c_.generators) == 1 and not c_.generators[0].ifs:
+                    its.append(c_.generators[0].iter)
+    if not any(isinstance(it_, ast.Call) and callee_name(it_) == "valuation_iterator" and text(it_.func.value) == cb2 for it_ in its):
         probs.append("result is not read back from the final candidate set")
     brk = [s for s in ast.walk(outer) if isinstance(s, ast.Break)]
     for b in brk:
